@@ -46,6 +46,7 @@ type c04Input struct {
 	WritesC []int  `json:"writes_c"` // application writes of the client, then of the server
 	WritesS []int  `json:"writes_s"`
 	PaySeed uint64 `json:"pay_seed"`
+	SeqBase uint64 `json:"seq_base,omitempty"` // dtlcp: both ends continue at this record sequence number after the handshake
 }
 
 // c04Capture is what one connection left on the wire and in the endpoints.
@@ -357,6 +358,9 @@ func (e *c04Endpoints) runDTLCP(in c04Input, wc, ws []int, split bool) *c04Captu
 				end.Close()
 				return
 			}
+			if in.SeqBase != 0 {
+				c.VerifSetWriteSeq(in.SeqBase)
+			}
 			mine, theirs := wc, ws
 			if id == 1 {
 				mine, theirs = ws, wc
@@ -577,10 +581,10 @@ func c04AddCase(out *emit.Out, in c04Input) {
 	for _, m := range cp.hs {
 		types = append(types, int(m[0]))
 	}
-	term := fmt.Sprintf("Conn %s %d %s\n  (%s)\n  %s %s %s\n  %s\n  %s\n  %s\n  %s %s\n  %s %s",
+	term := fmt.Sprintf("Conn %s %d %s\n  (%s)\n  %s %s %s\n  %s\n  %s\n  %s\n  %s %s\n  %s %s %d",
 		form, in.Suite, emit.Bool(in.Resumed), msrc, emit.Bytes(mc), emit.Bytes(mc2), emit.Bytes(ms),
 		c04Recs(cp.hs), c04Recs(cp.prot[0]), c04Recs(cp.prot[1]),
-		emit.Bytes(cp.wrote[0]), emit.Bytes(cp.wrote[1]), c04Recs(ivs[0]), c04Recs(ivs[1]))
+		emit.Bytes(cp.wrote[0]), emit.Bytes(cp.wrote[1]), c04Recs(ivs[0]), c04Recs(ivs[1]), in.SeqBase)
 	direct := ""
 	if string(cp.got[0]) != string(cp.wrote[0]) || string(cp.got[1]) != string(cp.wrote[1]) {
 		direct = "application bytes received differ from the bytes written"
@@ -643,6 +647,10 @@ func runC04(p params) error {
 							WritesC: sizes(r.IntN(6) == 0), WritesS: sizes(r.IntN(6) == 0)}
 						if p.tier == "thorough" && r.IntN(4) == 0 {
 							in.WritesC = append(in.WritesC, 1200+r.IntN(3000))
+						}
+						if stack == "dtlcp" && (resumed || round%2 == 1) {
+							// application records at sequence numbers above 2^32 (all six bytes of the number in use)
+							in.SeqBase = []uint64{1<<32 + 5, 1<<40 + 3, 1 << 47, 0xa1b2c3d4e5, 0xfffffffff0}[r.IntN(5)]
 						}
 						c04AddCase(out, in)
 					}
